@@ -5023,3 +5023,200 @@ def c20_compound_header_sizes(env):
 
 
 REGISTRY.setdefault("C20", []).append(c20_compound_header_sizes)
+
+
+# ---- C07 / C01: transfers held back by a closed window go out first, in arrival order, each exactly once -------
+
+
+def _same(a, b):
+    return a is not None and b is not None and a.eq(b)
+
+
+def c07_fifo_order(env):
+    """The hold-back queue is given logical positions: the front item has sequence number h, the next h+1, ...;
+    the transfer being handed to the session now arrived after all of them and has number h+len. pop_front /
+    push_back / is_empty / len follow VecDeque's contract on these numbers. Obligation: the items reaching the send
+    step (on_outgoing_transfer_inner) are numbered h, h+1, h+2, ... in call order, each with its own handle and
+    payload; the frames pushed to the output are in that order; the current transfer is sent or queued, once."""
+    out = []
+    targets = [
+        ("c07_held_back_transfers_go_first_and_in_order", r"^session::<impl at [^>]*>::on_outgoing_transfer$", "Session::on_outgoing_transfer", True),
+        ("c07_reopened_window_drains_in_order", r"^session::<impl at [^>]*>::prepare_session_frames_from_buffered_transfers$", "Session::prepare_session_frames_from_buffered_transfers", False),
+    ]
+    for name, pat, nice, has_cur in targets:
+        o = Obligation(name, "C07")
+        o.desc = f"{nice} (with the drain helpers inlined): the transfers that reach the send step are the front of the hold-back queue in queue order, each with its own handle and payload, then -- only once the queue is empty -- the transfer being sent now; the frames are put into the output in that order; the transfer being sent now is either sent or appended at the BACK of the queue, exactly once; no queued item disappears"
+        fn = env.fn(pat)
+        o.functions = [fn.name]
+        ex = env.executor(max_visits=_mv(4, 7))
+        ex.inline = {
+            r"prepare_session_frames_from_buffered_and_current_transfers$": r"^session::<impl at [^>]*>::prepare_session_frames_from_buffered_and_current_transfers$",
+            r"prepare_session_frames_from_buffered_transfers$": r"^session::<impl at [^>]*>::prepare_session_frames_from_buffered_transfers$",
+        }
+        o.functions += sorted(set(ex.inline.values()))
+        o.bounds = ["loop unrolled up to 3 times (up to 3 held-back transfers are followed through; longer drains are cut by the unrolling bound); every 32-bit window, every queue length and front position (64-bit)"]
+        o.assumes = ["VecDeque contract on logical positions (pop_front takes the front, push_back appends behind the last); the send step shrinks the window by one (c07_send_step) and returns the frame of the transfer it was given; any other operation on the queue makes the obligation inconclusive"]
+        S, v = session_pre(env)
+        riw_idx = env.fidx("Session", "remote_incoming_window")
+        buf_idx = env.fidx("Session", "remote_incoming_window_exhausted_buffer")
+        q0 = z3.BitVec("queue.len", 64)
+        h0 = z3.BitVec("queue.front_seq", 64)
+        Q = mir.Agg("queue")
+        Q["@len"] = q0
+        Q["@head"] = h0
+        S[buf_idx] = Q
+        OUT = mir.Agg("output")
+        OUT["@len"] = z3.BitVec("output_buffer.len", 64)
+        hyp0 = [z3.ULT(q0, 1 << 32), z3.ULT(h0, 1 << 40)]
+
+        def item(kind, seq):
+            a = mir.Agg(kind)
+            a["@seq"] = seq
+            return a
+
+        def tgt(ex_, st, x):
+            k = 0
+            while isinstance(x, mir.Ref) and k < 4:
+                cont, key = ex_.resolve(st, list(x.path))
+                x = cont.get(key)
+                k += 1
+            return x
+
+        def seq_of(x):
+            return x.get("@seq") if isinstance(x, mir.Agg) else None
+
+        def m_pop(ex_, st, callee, args, argvals, dty):
+            q = tgt(ex_, st, argvals[0])
+            r = mir.Agg("Option")
+            r["#d"] = z3.If(q["@len"] != 0, z3.BitVecVal(1, 64), z3.BitVecVal(0, 64))
+            sm = mir.Agg("Some")
+            t = mir.Agg("(handle, transfer, payload)")
+            t[0], t[1], t[2] = item("handle", q["@head"]), item("transfer", q["@head"]), item("payload", q["@head"])
+            sm[0] = t
+            r[("as", "Some")] = sm
+            nz = q["@len"] != 0
+            q["@head"] = z3.If(nz, q["@head"] + 1, q["@head"])
+            q["@len"] = z3.If(nz, q["@len"] - 1, q["@len"])
+            return r
+
+        def m_pushq(ex_, st, callee, args, argvals, dty):
+            q = tgt(ex_, st, argvals[0])
+            q["@len"] = q["@len"] + 1
+            return mir.Agg("()")
+
+        def m_qlen(ex_, st, callee, args, argvals, dty):
+            return tgt(ex_, st, argvals[0])["@len"]
+
+        def m_qempty(ex_, st, callee, args, argvals, dty):
+            return tgt(ex_, st, argvals[0])["@len"] == 0
+
+        def m_qother(ex_, st, callee, args, argvals, dty):
+            raise mir.Unsupported(f"unexpected operation on the hold-back queue: {callee[:90]}")
+
+        def m_push(ex_, st, callee, args, argvals, dty):
+            o_ = tgt(ex_, st, argvals[0])
+            if isinstance(o_, mir.Agg) and "@len" in o_:
+                o_["@len"] = o_["@len"] + 1
+            return mir.Agg("()")
+
+        def m_vlen(ex_, st, callee, args, argvals, dty):
+            o_ = tgt(ex_, st, argvals[0])
+            return o_["@len"] if isinstance(o_, mir.Agg) and "@len" in o_ else None
+
+        def m_noop(ex_, st, callee, args, argvals, dty):
+            return mir.Agg("()")
+
+        def m_newvec(ex_, st, callee, args, argvals, dty):
+            a = mir.Agg("output")
+            a["@len"] = z3.BitVecVal(0, 64)
+            return a
+
+        def m_step(ex_, st, callee, args, argvals, dty):
+            s_ = tgt(ex_, st, argvals[0])
+            s_[riw_idx] = s_[riw_idx] - 1
+            r = mir.Agg("Result")
+            r["#d"] = z3.BitVec(f"send_step.is_err#{ex_.ctx.n}", 64)
+            ex_.ctx.n += 1
+            ex_.assumptions.append(z3.ULE(r["#d"], 1))
+            okv = mir.Agg("Ok")
+            fr = mir.Agg("frame")
+            sq = seq_of(argvals[2])
+            if sq is not None:
+                fr["@seq"] = sq
+            okv[0] = fr
+            r[("as", "Ok")] = okv
+            return r
+
+        ex.models = [
+            (r"^VecDeque::<.*>::pop_front$", m_pop),
+            (r"^VecDeque::<.*>::push_back$", m_pushq),
+            (r"^VecDeque::<.*>::len$", m_qlen),
+            (r"^VecDeque::<.*>::is_empty$", m_qempty),
+            (r"^VecDeque::<.*>::", m_qother),
+            (r"^Vec::<(session::frame::)?SessionFrame>::push$", m_push),
+            (r"^Vec::<(session::frame::)?SessionFrame>::len$", m_vlen),
+            (r"^Vec::<(session::frame::)?SessionFrame>::reserve(_exact)?$", m_noop),
+            (r"^Vec::<(session::frame::)?SessionFrame>::with_capacity$", m_newvec),
+            (r"on_outgoing_transfer_inner$", m_step),
+        ]
+        cur_seq = h0 + q0
+        init = {"_1": mir.Ref(("@self",), True), "@self": S}
+        if has_cur:
+            init.update({"_2": item("handle", cur_seq), "_3": item("transfer", cur_seq), "_4": item("payload", cur_seq)})
+        else:
+            init["_2"] = OUT
+        paths = ex.run(fn, init)
+        hyp = ex.assumptions + hyp0
+
+        def replay(m):
+            return "scn window_reopen_with_echo", (lambda js: js.get("panic") or js["transfers_seen"] != 3 or not js["in_order"])
+
+        n = sends_seen = 0
+        for i, p in enumerate(paths):
+            if p.end != "return":
+                continue
+            n += 1
+            sends = [c for c in p.calls if _is(c[0], r"on_outgoing_transfer_inner$")]
+            qpush = [c for c in p.calls if re.search(r"^VecDeque::<.*>::push_back$", c[0])]
+            vpush = [c for c in p.calls if re.search(r"^Vec::<(session::frame::)?SessionFrame>::push$", c[0])]
+            sends_seen = max(sends_seen, len(sends))
+            for k, c in enumerate(sends):
+                a = c[1]
+                sq = [seq_of(a[j]) if len(a) > j else None for j in (1, 2, 3)]
+                if any(s is None for s in sq):
+                    o.prove(f"path{i}:send{k}:sends-a-transfer-it-was-given", hyp + p.cond, z3.BoolVal(False), replay=replay)
+                    continue
+                o.prove(f"path{i}:send{k}:next-in-arrival-order", hyp + p.cond, sq[1] == h0 + k, replay=replay)
+                o.prove(f"path{i}:send{k}:with-its-own-handle-and-payload", hyp + p.cond, z3.And(sq[0] == sq[1], sq[2] == sq[1]), replay=replay)
+            # frames reach the output in the order they were produced
+            fseq = [seq_of(c[1][1]) if len(c[1]) > 1 else None for c in vpush]
+            fseq = [s for s in fseq if s is not None]
+            for k in range(1, len(fseq)):
+                o.prove(f"path{i}:output{k}:frames-are-appended-in-order", hyp + p.cond, z3.ULT(fseq[k - 1], fseq[k]), replay=replay)
+            # a path on which the send step failed (`?` -> FromResidual) ends the session: only the order goals apply
+            if any(re.search(r"from_residual$", c[0]) for c in p.calls):
+                continue
+            ok = p.ret["#d"] == 0 if isinstance(p.ret, mir.Agg) and "#d" in p.ret else z3.BoolVal(True)
+            cur = p.locals["@self"]
+            q = cur.get(buf_idx)
+            if not (isinstance(q, mir.Agg) and "@len" in q and "@head" in q):
+                raise mir.Unsupported("hold-back queue lost")
+            # nothing disappears: what was popped was sent
+            o.prove(f"path{i}:every-item-taken-from-the-queue-is-sent", hyp + p.cond + [ok], q["@head"] == h0 + sum(1 for c in sends if not (has_cur and len(c[1]) > 2 and _same(seq_of(c[1][2]), cur_seq))), replay=replay)
+            if has_cur:
+                cur_sent = [c for c in sends if len(c[1]) > 2 and _same(seq_of(c[1][2]), cur_seq)]
+                cur_queued = [c for c in qpush if len(c[1]) > 1]
+                o.prove(f"path{i}:the-current-transfer-is-sent-or-queued-once", hyp + p.cond + [ok], z3.BoolVal(len(cur_sent) + len(cur_queued) == 1), replay=replay)
+                for c in cur_queued:
+                    tup = c[1][1]
+                    sq = [seq_of(tup.get(j)) if isinstance(tup, mir.Agg) else None for j in (0, 1, 2)]
+                    o.prove(f"path{i}:what-is-queued-is-the-current-transfer", hyp + p.cond, z3.BoolVal(all(_same(s, cur_seq) for s in sq)), replay=replay)
+                if cur_sent:
+                    o.prove(f"path{i}:the-current-transfer-goes-last", hyp + p.cond + [ok], z3.BoolVal(sends[-1] is cur_sent[0]), replay=replay)
+        o.cover("returning paths", [z3.BoolVal(n > 1)])
+        o.cover("a path that sends two or more transfers", [z3.BoolVal(sends_seen >= 2)])
+        out.append(o)
+    return out
+
+
+REGISTRY.setdefault("C07", []).append(c07_fifo_order)
